@@ -222,8 +222,49 @@ class Interp:
             del self.loopv[v]
         elif k == "flush":
             self.flush()
+        elif k == "epr":
+            self.epr_op(s[1], s[2])
         else:
             raise IllFormed(s)
+
+    def epr_op(self, kind, body):
+        """EPR operations (C14: only compilation matters).  self.sock is an EPRSocket
+        opened on this connection."""
+        sock = self.sock
+        if kind == "keep_create":
+            sock.create_keep(number=2)
+        elif kind == "keep_recv_nocorr":
+            sock.recv_keep(number=2, expect_phi_plus=False)
+        elif kind == "measure_create":
+            sock.create_measure(number=2)
+        elif kind == "measure_recv":
+            sock.recv_measure(number=2)
+        elif kind == "recv_corr":
+            sock.recv_keep(number=2, expect_phi_plus=True)
+        elif kind in ("post_create", "post_recv_nocorr", "post_recv_corr"):
+            def routine(_c, q, pair):
+                self.block(body)
+            if kind == "post_create":
+                sock.create_keep(number=2, post_routine=routine, sequential=True)
+            else:
+                sock.recv_keep(number=2, post_routine=routine, sequential=True,
+                               expect_phi_plus=(kind == "post_recv_corr"))
+        elif kind == "ctx_create":
+            with sock.create_context(number=2) as (q, pair):
+                self.block(body)
+        elif kind == "ctx_recv":
+            with sock.recv_context(number=2) as (q, pair):
+                self.block(body)
+        else:
+            raise IllFormed(kind)
+
+    def compile_only(self):
+        """what flush does, minus sending (C14 direct run)"""
+        b = self.conn._builder
+        proto = b.subrt_pop_pending_subroutine()
+        if proto is not None:
+            b.subrt_compile_subroutine(proto)
+            b._reset()
 
     def flush(self):
         conn = self.conn
@@ -247,9 +288,17 @@ class Interp:
             snap["regs"][r] = _val(rf)
         if self.pipe is not None:
             snap["ctrl_arrays"] = {a: _plain(v) for a, v in self.pipe.arrays().items()}
-            snap["ctrl_M"] = _plain(self.pipe.registers()["M"])
+            snap["ctrl_M"] = ctrl_m_registers(self.pipe)
             snap["reg_names"] = {r: str(rf.reg) for r, rf in self.reg.items()}
         return snap
+
+
+def ctrl_m_registers(pipe, app_id=0):
+    """values of M0..M15 on the controller (None = never written)"""
+    from netqasm.lang.encoding import RegisterName
+
+    grp = pipe.executor._registers[app_id][RegisterName.M]
+    return [None if grp._register.get(i) is None else int(grp._register.get(i)) for i in range(16)]
 
 
 def _plain(lst):
@@ -370,6 +419,7 @@ class Gen:
         self.size = size
         self.flush_p = flush_p
         self.features = features  # None = all constructs
+        self.allow_skipped_measreg = False
         self.reset()
 
     def reset(self):
@@ -399,7 +449,8 @@ class Gen:
 
     def full_arrays(self, n):
         """arrays whose entries 0..n-1 are all defined"""
-        return [a for a, d in self.arrays.items() if d["len"] >= n and all(i in d["defined"] for i in range(n))]
+        return [a for a, d in self.arrays.items() if d.get("handle", True) and d["len"] >= n
+                and all(i in d["defined"] for i in range(n))]
 
     def index_vars(self):
         return [v for v in self.vars if v["kind"] in ("reg", "rf", "both")]
@@ -411,15 +462,16 @@ class Gen:
             cands.append((a, ["c", i]))
         if not must_defined:
             for a, d in self.arrays.items():
-                for i in range(d["len"]):
-                    cands.append((a, ["c", i]))
+                if d.get("handle", True):
+                    for i in range(d["len"]):
+                        cands.append((a, ["c", i]))
         for v in self.vars:
             if v["kind"] in ("elem", "both"):
                 cands.append((v["arr"], ["v", v["v"]]))
                 cands.append((v["arr"], ["v", v["v"]]))
         for v in self.index_vars():
             for a in (self.full_arrays(v["hi"] + 1) if must_defined else
-                      [a for a, d in self.arrays.items() if d["len"] >= v["hi"] + 1]):
+                      [a for a, d in self.arrays.items() if d.get("handle", True) and d["len"] >= v["hi"] + 1]):
                 cands.append((a, ["v", v["v"]]))
         return self.rng.choice(cands) if cands else None
 
@@ -494,7 +546,7 @@ class Gen:
                 if ix[0] == "c" and self.at_block_level(depth):
                     self.arrays[a]["defined"].add(ix[1])
                 return ["measfut", q, int(inplace), a, ix]
-        if r < 0.7 and self.nreg_block < 12 and self.want("measreg"):
+        if r < 0.7 and self.nreg_block < 12 and self.want("measreg") and (self.cond_depth == 0 or self.allow_skipped_measreg):
             r_ = self.nreg
             self.nreg += 1
             self.nreg_block += 1
@@ -506,7 +558,7 @@ class Gen:
             return ["measreg", q, int(inplace), r_]
         a = self.narr
         self.narr += 1
-        self.arrays[a] = dict(len=1, defined=set())
+        self.arrays[a] = dict(len=1, defined=set(), handle=False)
         if self.at_block_level(depth):
             self.arrays[a]["defined"].add(0)
         return ["measnew", q, int(inplace), a]
@@ -624,7 +676,8 @@ class Gen:
         if k == "foreach":
             a = rng.choice(list(self.arrays))
             d = self.arrays[a]
-            if not all(i in d["defined"] for i in range(d["len"])) or self.mult * d["len"] > 40:
+            if (not d.get("handle", True) or not all(i in d["defined"] for i in range(d["len"]))
+                    or self.mult * d["len"] > 40):
                 return None
             enum = rng.random() < 0.5
             v = self.nvar
@@ -642,15 +695,17 @@ class Gen:
             self.vars.append(dict(v=v, kind="rf", lo=0, hi=maxit - 1, arr=None))
             save = self.mult
             self.mult *= maxit
-            self.cond_depth += 1   # iterations after an early exit do not happen
-            regs_before = list(self.regs)
+            # the body runs at least once, completely; the cleanup may not run at all
+            self.until_operand = None
             body = self.gen_until_body(depth + 1)
             cx = self.until_operand
+            if cx is None:
+                body = []
+            self.cond_depth += 1
             cleanup = self.gen_block(depth + 1, rng.randint(0, 2)) if rng.random() < 0.4 else []
             self.cond_depth -= 1
             self.mult = save
             self.vars.pop()
-            self.regs = regs_before
             if not body:
                 return None
             bound = rng.choice([0, 0, 0, 1, 1, 2])
@@ -683,7 +738,7 @@ class Gen:
                 body.append(["gate", rng.choice(GATES1), q])
             self.note_meas()
             m = rng.random()
-            if m < 0.4 and self.nreg_block < 12 and self.want("measreg"):
+            if m < 0.4 and self.nreg_block < 12 and self.want("measreg") and (self.cond_depth == 0 or self.allow_skipped_measreg):
                 r_ = self.nreg
                 self.nreg += 1
                 self.nreg_block += 1
@@ -692,7 +747,7 @@ class Gen:
             else:
                 a = self.narr
                 self.narr += 1
-                self.arrays[a] = dict(len=1, defined=set())
+                self.arrays[a] = dict(len=1, defined=set(), handle=False)
                 body.append(["measnew", q, 0, a])
                 self.until_operand = ["fut", a, ["c", 0]]
             return body
@@ -728,7 +783,56 @@ class Gen:
                 prog.append(self.consume(q, 0))
         prog.append(["flush"])
         script = [rng.randint(0, 1) for _ in range(self.meas_count)]
-        return prog, script
+        return renumber_arrays(prog), script
+
+
+def renumber_arrays(prog):
+    """array names = addresses in the order the builder will allocate them (statements
+    dropped during generation leave gaps)"""
+    order = []
+
+    def decl(b):
+        for s in b:
+            if s[0] == "newarr":
+                order.append(s[1])
+            elif s[0] == "measnew":
+                order.append(s[3])
+            for part in bodies(s):
+                decl(part)
+
+    decl(prog)
+    m = {a: i for i, a in enumerate(order)}
+
+    def op(x):
+        if isinstance(x, list) and x and x[0] == "fut":
+            return ["fut", m[x[1]], x[2]]
+        return x
+
+    def st(s):
+        k = s[0]
+        if k == "newarr":
+            return ["newarr", m[s[1]], s[2], s[3]]
+        if k == "measnew":
+            return ["measnew", s[1], s[2], m[s[3]]]
+        if k == "measfut":
+            return ["measfut", s[1], s[2], m[s[3]], s[4]]
+        if k == "futadd":
+            return ["futadd", m[s[1]], s[2], op(s[3]), s[4]]
+        if k == "regadd":
+            return ["regadd", s[1], op(s[2]), s[3]]
+        if k == "if":
+            return ["if", s[1], s[2], op(s[3]), op(s[4]), [st(x) for x in s[5]]]
+        if k == "loop":
+            return s[:6] + [[st(x) for x in s[6]]]
+        if k == "foreach":
+            return ["foreach", s[1], s[2], m[s[3]], [st(x) for x in s[4]]]
+        if k == "until":
+            return ["until", s[1], s[2], [st(x) for x in s[3]], op(s[4]), s[5], [st(x) for x in s[6]]]
+        if k == "epr":
+            return ["epr", s[1], [st(x) for x in s[2]]]
+        return s
+
+    return [st(s) for s in prog]
 
 
 def strip_flushes(prog):
@@ -779,6 +883,8 @@ def bodies(s):
         return [s[4]]
     if s[0] == "until":
         return [s[3], s[6]]
+    if s[0] == "epr":
+        return [s[2]]
     return []
 
 
@@ -870,11 +976,18 @@ def coq_stmt(s):
         return f"SLoopUntil {s[1]} {cz(s[2])} {coq_block(s[3])} {coq_cval(s[4])} {cz(s[5])} {coq_block(s[6])}"
     if k == "flush":
         return "SFlush"
+    if k == "epr":
+        return f"SEpr {EPR_COQ[s[1]]} {coq_block(s[2])}"
     raise IllFormed(s)
 
 
+EPR_COQ = dict(keep_create="EKeep", keep_recv_nocorr="EKeep", measure_create="EKeep", measure_recv="EKeep",
+               recv_corr="ERecvCorr", post_create="(EPost false)", post_recv_nocorr="(EPost false)",
+               post_recv_corr="(EPost true)", ctx_create="ECtx", ctx_recv="ECtx")
+
+
 def coq_block(b):
-    return coq_list("(" + coq_stmt(s) + ")" for s in b)
+    return "(blk " + coq_list("(" + coq_stmt(s) + ")" for s in b) + ")"
 
 
 def coq_operand(o):
